@@ -533,6 +533,27 @@ func (vc *FuncVC) execLibrary(st *State, reach Term, ins *ssa.Call, callee *ssa.
 			vc.libHavoc(name)
 			return
 		}
+	case "strconv.ParseUint":
+		// base 10, 64 bits: succeeds exactly on a numeral without sign whose value is below 2^64, and returns it
+		if sc, ok := args[2].(*ssa.Const); ok && sc.Value != nil && sc.Int64() == 64 {
+			vc.numeralTheory()
+			vc.modelNote("strconv.ParseUint")
+			vc.modelNote("numerals")
+			code, base := vc.scalar(args[0]), vc.scalar(args[1])
+			v := vc.fresh("parsedu", SInt)
+			er := vc.fresh("parseerr", SInt)
+			isnum := Eq(app(SInt, "uf_isnum_1", code), IntLit(1))
+			nv := app(SInt, "uf_numval_1", code)
+			b0 := vc.strByte(code, IntLit(0))
+			okc := And(isnum, Ne(b0, IntLit(43)), Ne(b0, IntLit(45)), Le(IntLit(0), nv), Lt(nv, BigLit(pow2_64)))
+			b10 := Eq(base, IntLit(10))
+			vc.assume(Implies(b10, Eq(Eq(er, IntLit(0)), okc)))
+			vc.assume(Implies(And(b10, okc), Eq(v, nv)))
+			vc.assume(And(Le(IntLit(0), v), Lt(v, BigLit(pow2_64))))
+			vc.vals[ins] = &Val{Kind: vTuple, Elems: []*Val{{T: v, GoType: types.Typ[types.Uint64]}, {T: er}}, GoType: rt}
+			vc.libHavoc(name)
+			return
+		}
 	case "strings.Index", "strings.IndexRune", "strings.LastIndexByte":
 		// -1, or a position inside the string
 		r := vc.fresh("stridx", SInt)
